@@ -1879,6 +1879,18 @@ def rule_diag_selection(chk, uni, alias):
             chk.ok("diag-selection", inst + " (diag evaluates self(X))", nontrivial=False)
             continue
         dsel = _selection(dsig)
+        # the same input must reach the child on EVERY returning path of diag, not only on one of them
+        if dsel == sel and sel:
+            for r_ in pf.walk_no_nested(dfn):
+                if isinstance(r_, ast.Return) and r_.value is not None:
+                    if any(pol and pf.is_self_attr(t, "_locked") for t, pol, k in cfgm.conditions_at(r_)):
+                        continue  # re-entrant branch: the outer call already selected the input
+                    ex_, _ = value_slice(dfn, [r_.value])
+                    rs = primitives(uni, km, cls, dfn, ex_, alias, {"__call__", "k_and_deriv", "diag"})
+                    if any(s_[0] == "delegate" for s_ in rs) and _selection(rs) != sel:
+                        dsel = _selection(rs)
+                        dfn_line = r_.lineno
+                        break
         if dsel == sel:
             chk.ok("diag-selection", inst + " (%s)" % (", ".join(fmt_sig(s) for s in sorted(sel)) or "no column selection"))
         else:
@@ -2672,6 +2684,10 @@ def mutants(tree):
         Mutant("DiffAntisymRBF.diag removed (inherits all-ones)", KR, regex=True,
                old=r"    def diag\(self, X\):\n        # This kernel is not normalised(?:.*\n)+?        return 2 - 2 \* np\.exp\(-0\.5 \* diff \* diff\)\n\n",
                new="", expect="diag-selection"),
+        Mutant("DiffTransform.diag skips the affine map for stationary kernels", KR,
+               "    def diag(self, X):\n        return self.kernel.diag(self._transform(X))",
+               "    def diag(self, X):\n        if self.kernel.is_stationary():\n            return self.kernel.diag(X)\n        return self.kernel.diag(self._transform(X))",
+               expect="diag-selection"),
         Mutant("ADKernel.diag ignores active_dims", KR, "return self.k.diag(X[:, self.active_dims])", "return self.k.diag(X)",
                expect="diag-selection"),
         Mutant("SingleDot.diag removed", KR,
